@@ -58,6 +58,13 @@ CLAIMS = {
              'from the same symbols; bitwise equality); 32/64-bit + and - are specified modulo 2^n. NOT covered: casts, postfix ++/--, index bounds, string concatenation/formatting (valueToString is opaque), control flow, calls, '
              'scoping, arrays with value semantics, echo - i.e. everything the property says about whole programs beyond these three branches.',
         ref='DESIGN.md §4 C07'),
+    'C08': dict(
+        text='Kernel only: overload resolution. Run time (unit OVL): valueConversionCost follows the cost table (exact 0, int->long 1, null 3 for class parameters, inheritance distance for classes over an uninterpreted hierarchy, nothing else fits), '
+             'argumentsConversionCost is the sum of the per-argument costs with arity check (loop invariant, ghost fold), and the selection loop of findMethod returns the unique minimum-cost candidate and nothing on a tie (ghost cursor). '
+             'Compile time (unit SEMK): conversionCost follows the same table, so both sides rank candidates identically on matching static/dynamic types (written lemma over the two contracts).',
+        note=TB + 'NOT covered: construction order, field initialisers, vtable building and virtual dispatch, super calls, static fields, generics, destructor chains (unordered_map / shared_ptr / recursion through exec are outside the lowering); the candidate '
+             'collection loops; and the stamping of a reference with its DECLARED class at declaration / parameter binding - observed defect: `A a = new Sub(); k.g(a)` runs g(Sub) although the analyser resolved g(A) (native oracle, label site.binding.*).',
+        ref='DESIGN.md §4 C08'),
     'C12': dict(
         text='Kernel only: (a) every lowered unit (SIM, LEX, UPD, QBK, ARITH, PTAB) carries CBMC bounds / pointer / division / shift obligations on every harness: for any input satisfying the stated invariants those functions never index out of range; '
              '(b) the arithmetic branches of eval can only end in a value or a located Runtime error: explicit no-trap obligations on every signed / and % (INT_MIN / -1, x / 0), no raw C++ exception from literal conversion '
